@@ -522,6 +522,8 @@ class Execution:
             if not f:
                 for o in outs:
                     c = dd_text(sc, o) if o == s["mkdd"] else info["content"]
+                    if o == "build.ninja":
+                        c = render_manifest(self.sc, self.vcmd, self.ctl)      # a generator statement regenerates the manifest
                     cur = self.content_of(o)
                     new = txt(c) if isinstance(c, str) else c
                     if (s["restat"] or s["ddr"]) and cur == new:
